@@ -155,6 +155,16 @@ func (s *vrtStore) count(name string) int {
 	return n
 }
 
+// okCall: some call of the operation succeeded
+func (s *vrtStore) okCall(name string) bool {
+	for _, c := range s.calls {
+		if c.Name == name && c.OK {
+			return true
+		}
+	}
+	return false
+}
+
 func (s *vrtStore) GetCA(context.Context) (*key.CertificateAndKey, error) {
 	return nil, errors.New("vrt: no CA")
 }
